@@ -293,6 +293,28 @@ def run_job(unit, job, cpath, outdir, tier, extra_defines=()):
                         res.raw_fail_output[rec['id']] = steps
     else:
         res.status = 'discharged'
+        if tier == 'thorough' and not job.get('no_second_backend'):
+            # second back end: every discharged job is re-checked with the other SAT solver; disagreement = undecided
+            alt = [] if solver else ['--sat-solver', 'cadical']
+            if solver and solver[:2] == ['--sat-solver', 'cadical']:
+                alt = ['--sat-solver', 'minisat2']
+            if solver and solver[0] in ('--z3', '--cvc5'):
+                alt = None
+            if alt is not None:
+                cb2 = ['cbmc', b_gb] + flags + alt + ['--json-ui']
+                rc2, out2, err2, dt2 = run(cb2, timeout)
+                res.cmds.append(' '.join(cb2))
+                if rc2 == -9:
+                    res.second_backend = 'timeout (%s)' % ' '.join(alt)
+                else:
+                    r2, m2, st2 = parse_cbmc_json(out2)
+                    bad2 = [o for o in (r2 or []) if o.get('status') != 'SUCCESS' and not o.get('description', '').startswith('canary')]
+                    if r2 is None or bad2:
+                        res.status = 'undecided'
+                        res.reason = 'back ends disagree: %s reports %s' % (' '.join(alt), (bad2[0].get('property') if bad2 else 'no result'))
+                    else:
+                        res.second_backend = 'agrees (%s, %.1fs)' % (' '.join(alt), dt2)
+                        res.backend += ' + ' + ' '.join(alt)
     res.wall_s = time.time() - t0
     return res
 
